@@ -131,7 +131,7 @@ class Recorder:
         self.sources = None
 
     # ----- config -----
-    def load_config(self, config_dir, settings_file='settings.yaml'):
+    def load_config(self, config_dir, settings_file='settings.yaml', *_a, **_k):
         from tally.config_loader import resolve_source_format
         self.calls.append(('load_config', config_dir, settings_file))
         warnings = []
@@ -156,7 +156,7 @@ class Recorder:
         return t
 
     # ----- parsing -----
-    def parse_generic_csv(self, filepath, format_spec, rules, source_name='CSV', decimal_separator='.', transforms=None, data_sources=None):
+    def parse_generic_csv(self, filepath, format_spec, rules, source_name='CSV', decimal_separator='.', transforms=None, data_sources=None, **_k):
         from tally import merchant_utils
         idx = int(os.path.basename(filepath)[1:-4])
         probe = merchant_utils.normalize_merchant('X AMAZON PRIME', rules, amount=5.0, transforms=transforms, data_sources=data_sources)
@@ -167,19 +167,19 @@ class Recorder:
             raise RuntimeError('cannot parse')
         return canned_txns(idx)
 
-    def load_supplemental_sources(self, config, config_dir):
+    def load_supplemental_sources(self, config, config_dir, *_a, **_k):
         self.calls.append(('load_supplemental', config_dir))
         names = [s['name'].lower() for s in config['data_sources'] if s.get('_supplemental')]
         return {n: [{'item': 'probe', 'amount': 1.0}] for n in names}
 
-    def analyze_transactions(self, txns):
+    def analyze_transactions(self, txns, *_a, **_k):
         self.calls.append(('analyze', list(txns)))
         if self.real_analyze:
             from tally import analyzer
             return analyzer.analyze_transactions(list(txns))
         return {'by_merchant': {}, 'num_months': 1, 'by_month': {}, 'by_category': {}, 'total': 0, 'count': len(txns), 'monthly_avg': 0}
 
-    def classify_by_sections(self, by_merchant, cfg, num_months=12):
+    def classify_by_sections(self, by_merchant, cfg, num_months=12, *_a, **_k):
         self.calls.append(('classify_by_sections', cfg))
         return {}
 
@@ -203,16 +203,33 @@ def install(mod, rec, extra=None):
         saved[(id(ns), name)] = (ns, name, ns.get(name, _MISSING))
         ns[name] = val
     ns = vars(mod)
+    # The budget directory /budget does not exist on disk: questions about paths under it are answered from the flag table
+    # WHEREVER tally asks them (the command module, config_loader, a helper a refactoring introduced); other paths are real.
+    shim = OsShim(rec.exists_table())
+    real_exists, real_isfile, real_isdir, real_makedirs = os.path.exists, os.path.isfile, os.path.isdir, os.makedirs
+
+    def under(p):
+        try:
+            q = os.path.normpath(os.fspath(p))
+        except TypeError:
+            return False
+        return isinstance(q, str) and (q == BUDGET or q.startswith(BUDGET + '/'))
+    pathns = vars(os.path)
+    osns = vars(os)
+    put(pathns, 'exists', lambda p: shim._ex(p) if under(p) else real_exists(p))
+    put(pathns, 'isfile', lambda p: shim._ex(p) if under(p) else real_isfile(p))
+    put(pathns, 'isdir', lambda p: shim.path.isdir(p) if under(p) else real_isdir(p))
+    put(osns, 'makedirs', lambda p, *a, **k: shim.makedirs(p) if under(p) else real_makedirs(p, *a, **k))
     put(ns, 'load_config', rec.load_config)
-    put(ns, 'find_config_dir', lambda: CONFIG_DIR)
-    put(ns, 'os', OsShim(rec.exists_table()))
+    put(ns, 'find_config_dir', lambda *a, **k: CONFIG_DIR)
+    put(ns, 'os', shim)
     put(ns, 'parse_generic_csv', rec.parse_generic_csv)
     put(ns, 'parse_amex', rec.out('parse_amex'))
     put(ns, 'parse_boa', rec.out('parse_boa'))
     put(ns, 'analyze_transactions', rec.analyze_transactions)
     put(ns, 'print', rec.print)
-    put(ns, '_print_deprecation_warnings', lambda cfg: None)
-    put(ns, '_check_deprecated_description_cleaning', lambda cfg: None)
+    put(ns, '_print_deprecation_warnings', lambda *a, **k: None)
+    put(ns, '_check_deprecated_description_cleaning', lambda *a, **k: None)
     if 'load_supplemental_sources' in ns:
         put(ns, 'load_supplemental_sources', rec.load_supplemental_sources)
     for name in ('print_summary', 'print_sections_summary', 'write_summary_file_vue', '_print_explain_summary', '_print_merchant_explanation', '_print_description_explanation'):
